@@ -25,7 +25,7 @@ META = {
                     "time accepted iff decoded == instant at ms resolution (csep-csv, jma) or floor(instant to s) <= decoded <= instant (zmap, ndk, horus)"],
     "deciding": ["decode:csep-csv", "decode:zmap", "decode:jma-csv", "decode:ingv_horus", "decode:ndk"],
 }
-META["added"] = 'Added: 1-6 fraction digits, files without final newline, decimal-year ZMAP in the second half of the year, pre-1970 fractional CSEP times, the epoch instant and zero-valued coordinates / depths. shards under different process time zones. NDK CENTROID lines with touching fields; the same file path re-used by every case.'
+META["added"] = 'Added: 1-6 fraction digits, files without final newline, decimal-year ZMAP in the second half of the year, pre-1970 fractional CSEP times, the epoch instant and zero-valued coordinates / depths. shards under different process time zones. NDK CENTROID lines with touching fields; the same file path re-used by every case. exponent-notation longitude in the first CSV record, NDK depth types FIX/BDY.'
 MANIFEST = {
     "technique": "boundary recorder on csep.load_catalog per format against per-format writer models; sys.monitoring witness on the readers' roll-over branches (a branch never reached makes the run inconclusive)",
     "level_text": "For each of the five text formats, generated files of well-formed records are decoded by the real readers; event count, order, coordinates, depth, magnitude and origin time (UTC, at the format's resolution) are compared with the writer model; roll-over spellings (seconds 60, minute 60, hour 24) and non-UTC offsets are generated on purpose and the witness confirms the roll-over branches executed.",
@@ -71,6 +71,8 @@ def gen_events(r, n, fmt):
             lon = 0.0
         elif z < 0.16:
             dep = 0.0
+        if i == 0 and fmt == "csep-csv" and r.uniform() < 0.3:
+            lon = float(r.choice([5e-05, -2.5e-05, 7.5e-06]))          # first record: longitude whose shortest text form uses exponent notation
         ev.append({"t": base, "lat": lat, "lon": lon, "depth": dep, "mag": float(numpy.round(r.uniform(1, 9), 2)),
                    "roll": int(r.integers(0, 5)) == 0})
     return ev
@@ -193,8 +195,9 @@ def write_ndk(path, ev, r):
             # (>= 10.0 s) or a three-digit shift the neighbouring fields touch, which is legal in the fixed-width format
             tshift = float(r.choice([-0.3, 12.7, -9.9, 123.4, 0.0]))
             terr = float(r.choice([0.9, 0.0, 10.5, 99.9, 0.1]))
-            line3 = "CENTROID: %8.1f%4.1f%7.2f%5.2f%8.2f%5.2f%6.1f%5.1f FREE S-20050322125201" % (tshift, terr, 13.76, 0.06, -89.08, 0.09, 162.8, 12.5)
-            assert len(line3.split("FREE")[0]) == 59, line3
+            dtype_ = str(r.choice(["FREE", "FREE", "FIX ", "BDY "]))       # depth type: free inversion, fixed, body-wave constrained
+            line3 = "CENTROID: %8.1f%4.1f%7.2f%5.2f%8.2f%5.2f%6.1f%5.1f %s S-20050322125201" % (tshift, terr, 13.76, 0.06, -89.08, 0.09, 162.8, 12.5, dtype_)
+            assert line3[59:63] == dtype_, line3
             line4 = "%2d  0.838 0.201 -0.005 0.231 -0.833 0.270  1.050 0.121 -0.369 0.161  0.044 0.240" % expo
             line5 = "V10   1.581 56  12  -0.537 23 140  -1.044 24 241 %7.3f   9 29  142 133 72   66" % m0
             assert line5[49:56].strip() == "%.3f" % m0, line5[49:56]
